@@ -10,6 +10,72 @@ from mc.ref import bencode, model
 
 P0 = 16384
 
+# ------------------------------------------------- names that are not UTF-8
+# POSIX file names are byte strings.  A name that is not valid UTF-8 reaches
+# Python with the offending bytes escaped as lone surrogates (U+DC80..U+DCFF);
+# the order of such `str` names is NOT the order of the raw bytes (the order
+# bencoding demands of dictionary keys) whenever, after a common prefix, an
+# undecodable byte meets a multi-byte character.  Each shape pairs such names
+# inside one directory; the pairs are chosen so that str order and raw-byte
+# order DISAGREE (asserted in raw_name_shapes()).
+
+
+def _fs(b):
+    return os.fsdecode(b)
+
+
+RAW_NAME_SHAPES = {
+    # cp1252 quotation marks (stray continuation bytes 0x93 / 0x94) next to a
+    # two-byte character: 93 < C3, but U+DC93 > U+00E9
+    "D3r-cp1252": [(_fs(b"\x93live\x94.txt"),), ("édition.txt",),
+                   ("d", "b")],
+    # a name cut off in the middle of a multi-byte character next to the
+    # complete name: the cut name is a byte-wise prefix of the complete one
+    "D3r-cut": [(_fs(b"track-\xe3\x81\x82\xe3\x81"),),
+                ("track-あい",), ("z",)],
+    # a byte that never occurs in UTF-8 (0xF5..0xFF) next to a four-byte
+    # character (emoji): F0 < FF, but U+DCFF < U+1F600
+    "D3r-ff": [(_fs(b"\xffx.bin"),), ("\U0001f600.bin",), ("a",)],
+    # the same relations one level down and between DIRECTORY names
+    "D3r-sub": [("d", _fs(b"\x80")), ("d", "ü"), ("e",)],
+    "D3r-dirs": [(_fs(b"\xfe\xfe"), "x"), ("\U0001f600", "y"),
+                 (_fs(b"\x93"), "z")],
+    # control: an undecodable name whose str order agrees with its byte
+    # order (latin-1 e-acute E9 next to UTF-8 C3 A9, and among ASCII names)
+    "D3r-latin1": [(_fs(b"caf\xe9"),), ("café",), ("cafz",)],
+}
+_RAW_DISAGREE = ("D3r-cp1252", "D3r-cut", "D3r-ff", "D3r-sub", "D3r-dirs")
+world.SHAPES.update(RAW_NAME_SHAPES)
+
+
+def raw_name_shapes():
+    """Names of the shapes above, after checking that the catalogue still has
+    the property it is there for (a self-check of the harness)."""
+    for sh in RAW_NAME_SHAPES:
+        rels = RAW_NAME_SHAPES[sh]
+        bad = [n for rel in rels for n in rel
+               if not _encodable(n)]
+        if not bad:
+            raise core.InfraError(f"{sh}: no undecodable name")
+        by_dir = collections.defaultdict(set)
+        for rel in rels:
+            for i, n in enumerate(rel):
+                by_dir[rel[:i]].add(n)
+        differ = any(sorted(ns) != sorted(ns, key=os.fsencode)
+                     for ns in by_dir.values())
+        if differ != (sh in _RAW_DISAGREE):
+            raise core.InfraError(f"{sh}: str order vs byte order: {differ}")
+    return list(RAW_NAME_SHAPES)
+
+
+def _encodable(n):
+    try:
+        n.encode("utf-8")
+        return True
+    except UnicodeEncodeError:
+        return False
+
+
 # ---------------------------------------------------------------- base files
 
 OPTS_ALL = dict(announce=["http://t1/a", "http://t2/a"], comment="c0",
@@ -232,15 +298,102 @@ def requests(route, tier):
     return single, pairs
 
 
-def apply_request(route, path, req):
+def _text(b):
+    """A stored byte string as a request value (None if it cannot be one)."""
+    if not isinstance(b, bytes):
+        return None
+    try:
+        t = b.decode("utf-8")
+    except UnicodeDecodeError:
+        return None
+    if not t.strip() or t.startswith("-") or "\x00" in t:
+        return None
+    return t
+
+
+def overlap_requests(raw, route):
+    """Single-field requests whose value is (part of) what the metafile ALREADY
+    stores under the field's name: in the dictionary where the field lives, or
+    under the same name in the other dictionary.  Such a request is as much a
+    write as any other (the field must end up holding the model's value: for
+    the tracker `announce` = first URL and `announce-list` = [URLs]); an
+    implementation that skips "unchanged" values must still get that right."""
+    try:
+        top = bencode.plain(bencode.decode(raw, strict=False))
+    except bencode.BencodeError:
+        return []
+    info = top.get(b"info") if isinstance(top, dict) else None
+    if not isinstance(info, dict):
+        return []
+    out = []
+
+    def add(f, v):
+        r = ((f, v),)
+        if r not in out:
+            out.append(r)
+
+    for f in FIELDS:
+        key = f.encode()
+        stored = [top.get(key), info.get(key)]
+        if f == "announce":
+            for d in (top, info):
+                al = d.get(b"announce-list")
+                if isinstance(al, list) and al and isinstance(al[0], list):
+                    stored.append(al[0])
+        for sv in stored:
+            if f == "private":
+                if sv == 1:
+                    add(f, True)
+                continue
+            if isinstance(sv, bytes):
+                t = _text(sv)
+                if t is None:
+                    continue
+                if f in TRACKERLIKE:
+                    add(f, [t])
+                    if route == "lib":
+                        add(f, t)
+                else:
+                    add(f, t)
+            elif isinstance(sv, list) and sv and f in TRACKERLIKE:
+                items = [_text(x) for x in sv]
+                if any(x is None for x in items):
+                    continue
+                add(f, list(items))
+                if len(items) > 1:
+                    add(f, [items[0]])
+                if route == "lib" and not any(len(x.split()) != 1
+                                              for x in items):
+                    add(f, " ".join(items))
+                    add(f, items[0])
+    return out
+
+
+# effective debug logging while the edit runs: the global CLI flag -v, a host
+# program that set the `torrentfile` logger (or the root logger) to DEBUG
+DEBUG_VARIANTS = {"lib": ["debug", "rootdebug"], "cli": ["v"]}
+
+
+def apply_request(route, path, req, variant=None):
     if route == "lib":
         args = {f: None for f in FIELDS}
         for f, v in req:
             args[f] = list(v) if isinstance(v, list) else v
         with tf.quiet():
-            tf.edit.edit_torrent(path, args)
+            if variant is None:
+                tf.edit.edit_torrent(path, args)
+                return
+            import logging
+            lg = logging.getLogger("torrentfile" if variant == "debug"
+                                   else None)
+            level = lg.level
+            lg.setLevel(logging.DEBUG)
+            try:
+                tf.edit.edit_torrent(path, args)
+            finally:
+                lg.setLevel(level)
         return
-    argv = ["edit", path]
+    argv = (["-v"] if variant == "v" else []) + ["edit", path]
     for f, v in req:
         if f == "private":
             argv.append("--private")
@@ -400,7 +553,28 @@ class EditBFS:
             "the metafile named through several spellings of its path (relative, "
             "dot segments, through a symlinked directory and back with '..'): "
             "the named file changes and nothing else does",
-            "C06's creation sweep also writes over an existing, much longer file",
+            "overlap probes: from the base and every depth-1 state (thorough: "
+            "every state) each field is also requested with a value derived "
+            "from the state itself - (part of) what is already stored under "
+            "the field's name in either dictionary: the stored primary "
+            "tracker as a one-URL string and list, the first tier as list / "
+            "string, stored seed lists whole and first item only, stored "
+            "comment / source text, private when it is 1; judged by the same "
+            "transition oracle (tracker: announce = first URL and "
+            "announce-list = [URLs]); their successors are not expanded",
+            "debug-logging probes: every depth-1 transition of every base is "
+            "also run with debug logging effective - CLI: global flag -v "
+            "before `edit`; library: the `torrentfile` logger at DEBUG, and "
+            "the root logger at DEBUG (levels restored afterwards); deeper "
+            "states are edited with logging at its default only",
+            "C06's creation sweep also writes over an existing, much longer "
+            "file; it includes content trees with names that are not valid "
+            "UTF-8 (cp1252 bytes, a name cut inside a multi-byte character, "
+            "bytes 0xF5-0xFF; as file and as directory names, next to "
+            "siblings for which str order and raw-byte order disagree): there "
+            "a creator may refuse (raise) - then the output path must be "
+            "absent, empty, still hold what it held before, or hold a "
+            "canonical metafile - or must write a canonical metafile",
             "a length sweep: edits of a metafile with a long piece string "
             "whose results take every byte length in a window around 8, 16, "
             "32 and 64 KiB",
@@ -412,7 +586,10 @@ class EditBFS:
             "(library | CLI); transition = one real edit_torrent / CLI edit "
             "on a copy of the state file; states deduplicated on file bytes; "
             "per transition: span-preserving decode before/after compared "
-            "with the reference edit model")
+            "with the reference edit model; plus non-expanding probes: "
+            "state-derived overlap values (depth <= 1 quick, every state "
+            "thorough) and the depth-1 transitions under effective debug "
+            "logging (cli -v | torrentfile logger | root logger at DEBUG)")
 
     def groups(self, tier, seed):
         gs = []
@@ -689,11 +866,28 @@ class EditBFS:
             if depth_cap is not None and len(hist) >= depth_cap:
                 continue
             reqs = reqs2 if (thorough or len(hist) <= 1) else reqs1
-            for req in reqs:
+            todo = [(req, None, True) for req in reqs]
+            # probes: transitions that are judged like any other, but whose
+            # successor is not expanded if nothing else reaches it (they
+            # would multiply the state space without adding a new behaviour)
+            if thorough or len(hist) <= 1:
+                # values equal to (part of) what the state already stores
+                ov = [r for r in overlap_requests(raw, route)
+                      if r not in reqs]
+                todo += [(req, None, False) for req in ov]
+                res.extra["overlap_probes"] += len(ov)
+            if not hist:
+                # the depth-1 transitions of the base once more with debug
+                # logging effective (CLI: global flag -v; library: the
+                # `torrentfile` logger / the root logger at DEBUG)
+                for variant in DEBUG_VARIANTS[route]:
+                    todo += [(req, variant, False) for req in reqs]
+                    res.extra["debug_logging_probes"] += len(reqs)
+            for req, variant, expand in todo:
                 with open(state_file, "wb") as f:
                     f.write(raw)
                 try:
-                    apply_request(route, state_file, req)
+                    apply_request(route, state_file, req, variant)
                     with open(state_file, "rb") as f:
                         after = f.read()
                     err = None
@@ -705,9 +899,13 @@ class EditBFS:
                 case = {"base": list(base), "route": route, "seed": seed,
                         "history": [list(map(list, r)) for r in hist],
                         "request": list(map(list, req))}
+                rlabel = route
+                if variant:
+                    case["variant"] = variant
+                    rlabel = f"{route}-{variant}"
                 fields = "+".join(f for f, _ in req)
                 if err:
-                    res.violation(f"{self.id}|{route}|edit-raised:{err}|"
+                    res.violation(f"{self.id}|{rlabel}|edit-raised:{err}|"
                                   f"{base[0]}|{fields}", case, err)
                     res.outcomes["raised"] += 1
                     continue
@@ -716,16 +914,17 @@ class EditBFS:
                     probs = self.judge_transition(raw, after, req)
                     for p, d in probs:
                         res.violation(
-                            f"C07|{route}|{p}|{base[0]}-{base[1]}|{fields}",
+                            f"C07|{rlabel}|{p}|{base[0]}-{base[1]}|{fields}",
                             case, {"problem": p, "key": d})
                     res.outcomes["ok" if not probs else probs[0][0]] += 1
                 else:
                     cp, _ = canonical_problems(after)
                     for p in cp:
                         res.violation(
-                            f"C06|{route}-edit|{p}|{base[0]}-{base[1]}", case, p)
+                            f"C06|{rlabel}-edit|{p}|{base[0]}-{base[1]}",
+                            case, p)
                     res.outcomes["ok" if not cp else cp[0]] += 1
-                if after not in seen:
+                if expand and after not in seen:
                     seen[after] = hist + (req,)
                     frontier.append(after)
         res.states += len(seen)
@@ -779,10 +978,30 @@ class EditBFS:
                 res.outcomes["ok" if not probs else probs[0][0]] += 1
         return res
 
+    JUNK = b"d4:junk" + b"x" * 200000 + b"e"
+
+    def left_behind(self, out, mask):
+        """After a creator REFUSED (raised): problems of whatever it wrote to
+        the output path all the same.  Nothing there, an empty file, or the
+        untouched file that was there before, is no metafile written."""
+        if not os.path.lexists(out):
+            return []
+        with open(out, "rb") as f:
+            data = f.read()
+        if (mask % 2 == 1 or mask >= 16) and data == self.JUNK:
+            return []
+        if not data:
+            # an empty file: no byte of a metafile was written (weakest
+            # reading; whether create may leave it is not C06's subject)
+            return []
+        cp, _ = canonical_problems(data)
+        return ["refused-but-wrote:" + p for p in cp]
+
     def run_create(self, g):
         """C06(a): every creator x every subset of options x listing order."""
         res = core.Result()
         seed = g["seed"]
+        raw_names = raw_name_shapes()
         opts = ["announce", "url_list", "httpseeds", "comment+source",
                 "private"]
         worlds = base_world(seed)
@@ -797,8 +1016,9 @@ class EditBFS:
                     {"shape": sh_, "sizes": [2 * P0 + 1, 7, P0 + 5][
                         :world.nfiles(sh_)], "cids": [0, 1, 2][
                         :world.nfiles(sh_)], "names_only": True}
-                    for sh_ in ("D3o", "D3q", "D3b", "D3n", "D2rr", "D3u",
-                                "D3p", "D3e") if wkey == sorted(worlds)[0]):
+                    for sh_ in ["D3o", "D3q", "D3b", "D3n", "D2rr", "D3u",
+                                "D3p", "D3e"] + raw_names
+                    if wkey == sorted(worlds)[0]):
                 files = world.files_of(sh_w, seed)
                 for mask in range(32):
                     if sh_w.get("names_only") and mask not in (0, 21):
@@ -819,7 +1039,7 @@ class EditBFS:
                     if mask % 2 == 1 or mask >= 16:
                         # the output path already holds a (much longer) file
                         with open(out, "wb") as f:
-                            f.write(b"d4:junk" + b"x" * 200000 + b"e")
+                            f.write(self.JUNK)
                     tf.reset_process_state()
                     ctx = seams.nullctx() if g["order"] == "native" else \
                         seams.listing_order(g["order"], under=parent)
@@ -830,8 +1050,26 @@ class EditBFS:
                         with ctx:
                             raw = tf.create(g["creator"], root, out, P0, **kw)
                     except Exception as e:  # noqa
-                        res.violation(f"C06|create|raised:{type(e).__name__}|"
-                                      f"{g['creator']}", case, str(e)[:200])
+                        if sh_w["shape"] not in RAW_NAME_SHAPES:
+                            res.violation(
+                                f"C06|create|raised:{type(e).__name__}|"
+                                f"{g['creator']}", case, str(e)[:200])
+                            continue
+                        # names that are not UTF-8: refusing is fine, as long
+                        # as no metafile was written (the statement is about
+                        # the metafiles that ARE written)
+                        res.transitions += 1
+                        res.evals += 1
+                        res.states += 1
+                        res.validated += 1
+                        left = self.left_behind(out, mask)
+                        res.outcomes["refused:" + type(e).__name__ +
+                                     (":nothing-written" if not left else
+                                      ":" + left[0])] += 1
+                        for p in left:
+                            res.violation(
+                                f"C06|create|{p}|{g['creator']}|raw-names",
+                                case, {"raised": type(e).__name__})
                         continue
                     res.transitions += 1
                     res.evals += 1
@@ -867,12 +1105,20 @@ class EditBFS:
                         kw[o] = OPTS_ALL[o]
             ctx = seams.nullctx() if case["order"] == "native" else \
                 seams.listing_order(case["order"], under=parent)
+            out_path = os.path.join(parent, "o.torrent")
             if case["mask"] % 2 == 1 or case["mask"] >= 16:
-                with open(os.path.join(parent, "o.torrent"), "wb") as f:
-                    f.write(b"d4:junk" + b"x" * 200000 + b"e")
-            with ctx:
-                raw = tf.create(case["creator"], root,
-                                os.path.join(parent, "o.torrent"), P0, **kw)
+                with open(out_path, "wb") as f:
+                    f.write(self.JUNK)
+            tf.reset_process_state()
+            try:
+                with ctx:
+                    raw = tf.create(case["creator"], root, out_path, P0, **kw)
+            except Exception as e:  # noqa
+                if case["world"]["shape"] not in RAW_NAME_SHAPES:
+                    return [{"sig": f"C06|create|raised:{type(e).__name__}",
+                             "detail": str(e)[:200]}]
+                return [{"sig": f"C06|create|{p}", "detail": type(e).__name__}
+                        for p in self.left_behind(out_path, case["mask"])]
             cp, _ = canonical_problems(raw)
             return [{"sig": f"C06|create|{p}", "detail": p} for p in cp]
         if case.get("kind") == "spelling":
@@ -922,17 +1168,18 @@ class EditBFS:
             return [{"sig": f"C06|base|{p}", "detail": p} for p in cp]
         req = tuple((f, v) for f, v in case["request"])
         try:
-            apply_request(route, state_file, req)
+            apply_request(route, state_file, req, case.get("variant"))
         except Exception as e:  # noqa
             return [{"sig": f"{self.id}|edit-raised", "detail": repr(e)}]
         with open(state_file, "rb") as f:
             after = f.read()
+        rlabel = route + ("-" + case["variant"] if case.get("variant") else "")
         if self.id == "C07":
             for p, d in self.judge_transition(before, after, req):
-                out.append({"sig": f"C07|{route}|{p}", "detail": d})
+                out.append({"sig": f"C07|{rlabel}|{p}", "detail": d})
         else:
             cp, _ = canonical_problems(after)
-            out = [{"sig": f"C06|{route}-edit|{p}", "detail": p} for p in cp]
+            out = [{"sig": f"C06|{rlabel}-edit|{p}", "detail": p} for p in cp]
         return out
 
 
